@@ -2,6 +2,7 @@ import EmsModel.Core.Clip
 import EmsModel.Core.ClipSurvivors
 import EmsModel.Core.Polygons
 import EmsModel.Lemmas.Polygons
+import EmsModel.Props.C07
 /-!
 # C09 — clipped and subsetted datasets remain valid datasets with unchanged geometry
 
@@ -359,5 +360,41 @@ example : renumber [false, true, true, false, true] = [none, some 0, some 1, non
 example : updateConnectivity [[some 0, some 1, none], [some 1, some 2, some 3]] [false, true] [none, some 0, some 1, none]
     = [[some 0, some 1, none]] := by decide
 example : compress [false, true, true] [(10 : Nat), 20, 30] = [20, 30] := by decide
+
+/-! ### end to end: the polygons of a clipped mesh (composition with C07)
+
+`polygon_preserved` assumes that every node of a kept face is kept. C07's `mesh_mask_spec` proves exactly
+that of the mask `UGrid.make_clip_mask` computes. Composed: for every mesh, every hit list in any order
+and every buffer, each face the clip keeps has, in the clipped mesh (nodes compressed by the node mask,
+face-node table re-indexed), exactly the polygon it had. -/
+theorem clip_polygons_end_to_end (nodes : List Pt) (m : Clip.FaceMesh) (hn : m.nNodes = nodes.length)
+    (hits : List Nat) (hr : ∀ f ∈ hits, f < m.nFaces) (buffer : Int)
+    (hvalid : ∀ (f : Nat) (hf : f < m.faces.length), ∀ n ∈ m.faces[f], n < nodes.length)
+    (f : Nat) (hfK : f ∈ Clip.keptFaces m hits buffer) :
+    let keepN := (Clip.ugridClipMask m hits buffer).newNode.map Option.isSome
+    ∃ (hf : f < m.faces.length),
+      allSomeL ((((m.faces[f].map some).map fun e => e.bind fun x => ((renumber keepN)[x]?).join)).map
+          fun e => e.bind fun n' => (compress keepN nodes)[n']?) =
+        allSomeL (m.faces[f].map fun n => nodes[n]?) := by
+  intro keepN
+  obtain ⟨hface, hnode, _, _⟩ := C07.mesh_mask_spec m hits hr buffer
+  obtain ⟨⟨hfl, _⟩, ⟨hnl, _⟩, _⟩ := C07.renumber_spec m hits buffer
+  -- a kept face is a face of the mesh
+  have hf : f < m.faces.length := by
+    obtain ⟨v, hv⟩ := (hface f).mpr hfK
+    have := (List.getElem?_eq_some_iff.mp hv).1
+    rw [hfl] at this
+    exact this
+  refine ⟨hf, ?_⟩
+  have hlenN : keepN.length = nodes.length := by simp [keepN, hnl, hn]
+  apply polygon_preserved nodes m.faces [] keepN hlenN f hf
+  intro n hnmem
+  refine ⟨hvalid f hf n hnmem, ?_⟩
+  have hkept : C07.IsKept (Clip.ugridClipMask m hits buffer).newNode n := by
+    rw [hnode n]
+    refine ⟨by rw [hn]; exact hvalid f hf n hnmem, f, hfK, ?_⟩
+    simp [Clip.FaceMesh.faceNodes, List.getD_eq_getElem?_getD, List.getElem?_eq_getElem hf, hnmem]
+  obtain ⟨v, hv⟩ := hkept
+  simp [keepN, List.getD_eq_getElem?_getD, List.getElem?_map, hv]
 
 end Ems.C09
